@@ -377,6 +377,11 @@ func VH_arrayBig(n int, spare int) {
 	for i := 0; i < n; i++ {
 		a[i] = float64(i)
 	}
+	// an element that is itself an array: the results must hold that same array, not a copy
+	inner := []interface{}{1.5, 2.5}
+	if n >= 5 {
+		a[1] = inner
+	}
 	x1, x2, z := verifNondetFloat(), verifNondetFloat(), verifNondetFloat()
 	in := NewInterpreter()
 	utils.HadRuntimeError = false
@@ -406,6 +411,19 @@ func VH_arrayBig(n int, spare int) {
 			return
 		}
 	}
+	if n >= 5 {
+		verifAssert("append-result-shares-element-arrays", verifSameObject(b[1], a[1]) && verifSameObject(c[1], a[1]))
+		if k != 1 {
+			pos := 1
+			if k < 1 {
+				pos = 0
+			}
+			verifAssert("remove-result-shares-element-arrays", verifSameObject(d[pos], a[1]))
+		}
+		inner[0] = z
+		ib, okib := b[1].([]interface{})
+		verifAssert("append-result-sees-writes-to-a-shared-element", okib && len(ib) == 2 && hvIdentical(ib[0], z))
+	}
 	// positions that matter: both ends, the removal point and its neighbours
 	probe := []int{0, n - 1, n / 2}
 	if n > 0 {
@@ -432,6 +450,9 @@ func VH_arrayBig(n int, spare int) {
 			src := p
 			if p >= k {
 				src = p + 1
+			}
+			if src == 1 && n >= 5 {
+				continue // the element array, checked above
 			}
 			verifAssert("remove-result-holds-the-other-elements-in-order", hvIdentical(d[p], float64(src)))
 		}
